@@ -1,9 +1,512 @@
-import BqVerif.Model.Graph
-/-! # C20 — coupling-graph and permutation utilities match their definitions -/
+import BqVerif.Proofs.GraphConn
+import BqVerif.Proofs.GraphDeg
+import BqVerif.Proofs.GraphSub
+import BqVerif.Proofs.GraphTopo
+import BqVerif.Proofs.GraphPerm
+import BqVerif.Proofs.GraphFW
+import BqVerif.Proofs.GraphDijkstra
+import BqVerif.Proofs.GraphSubsets
+import BqVerif.Proofs.GraphEmbed
+import BqVerif.Proofs.GraphFcw
+import BqVerif.Proofs.GraphQpu
+import BqVerif.Proofs.KronOps
+import BqVerif.Proofs.KronGen
+import BqVerif.Proofs.GraphRel
+/-!
+# C20 — coupling-graph and qudit-permutation utilities match their definitions
+
+Every theorem is about the executable model `BqVerif.Graph` (`Model/Graph.lean`), a transcription
+of `bqskit/qis/graph.py` and of the swap loop of `bqskit/qis/permutation.py`; the model is tied to
+the real code by `harness/c20.py` (exhaustive correspondence on all labelled graphs with ≤ 5/6
+vertices).  The proofs live in `Proofs/Graph*.lean`; this file only states the property theorems.
+
+Vocabulary (defined in the `Proofs` files, all elementary):
+* `G.WF g`            every stored edge `(u,v)` has `u < v < g.n` (what the constructor `mk?` yields);
+* `Reach g a b`       reflexive–transitive closure of `g.hasEdge`;
+* `WalkLen g a b k`   there is a walk `a → b` with exactly `k` edges;  `IsPath g p`: consecutive
+                      vertices of `p` are adjacent;  `IsWalk g i mids j`: `i → mids… → j` along edges;
+* `walkWeight m i mids j`  weight of the non-empty walk `i → mids… → j` in the weight matrix `m`
+                      (`none` = ∞), `wle` = `≤` on `ℕ ∪ {∞}`, `Mat.Square m n` = `m` is `n × n`;
+* `ReachIn g S a b`, `ConnectedOn g S`  reachability / connectedness inside the vertex set `S`;
+* `ReachAvoid g q a b`  reachability by walks all of whose vertices are `≠ q`;
+  `ReachLocal g remote a b`  reachability over edges that are not remote edges;
+* `BqVerif.Kron.*`   monomial-matrix model of `UnitaryMatrix`/`UnitaryBuilder` (`Model/Kron.lean`):
+  a matrix is the list sending column `c` to `(row, phase)`, entry `i^phase`; `Mono.Unitary m`: rows
+  `< |m|`, pairwise distinct, phases `< 4`;
+* `validMatching`, `validMinSpan` (`Model/GraphRel.lean`): executable checkers through which the harness
+  sends every REAL result of `maximal_matching` / `get_rooted_minimum_span` (results depend on Python set
+  order, so there is no functional model); `greedyMatching`, `G.rootedSpan`: the algorithms for an
+  ARBITRARY iteration order; `Walk g a k b`: walk with `k` edges.
+-/
 namespace BqVerif.C20
 open BqVerif.Graph
 
-theorem C20_norm_le (e : Nat × Nat) : (norm e).1 ≤ (norm e).2 := by
-  unfold norm; split <;> simp_all <;> omega
+/-! ## 1. is_fully_connected -/
+
+/-- The frontier BFS answers `true` iff every vertex is reachable from vertex 0 (equivalently: any
+two vertices are connected).  `n = 0` is excluded: Python raises `IndexError` there. -/
+theorem C20_connected (g : G) (hwf : g.WF) (hn : 1 ≤ g.n) :
+    (g.isFullyConnected = true ↔ ∀ v, v < g.n → Reach g 0 v) ∧
+    (g.isFullyConnected = true ↔ ∀ u v, u < g.n → v < g.n → Reach g u v) :=
+  ⟨isFullyConnected_iff g hwf hn, isFullyConnected_iff_all_pairs g hwf hn⟩
+
+/-- The iteration bound `n + 2` of the model is immaterial: any fuel ≥ n + 1 gives the same answer,
+i.e. the Python `while` loop terminates within `n + 1` rounds with this answer. -/
+theorem C20_connected_fuel (g : G) (hwf : g.WF) (hn : 1 ≤ g.n) (fuel : Nat) (hf : g.n + 1 ≤ fuel) :
+    bfsLoop g fuel [0] [] = g.isFullyConnected :=
+  bfsLoop_fuel_irrelevant g hwf hn fuel hf
+
+example : ∃ g : G, g.WF ∧ 1 ≤ g.n ∧ g.isFullyConnected = true :=
+  ⟨⟨3, [(0, 1), (1, 2)]⟩, by simp [G.WF], by decide, by decide⟩
+example : ∃ g : G, g.WF ∧ 1 ≤ g.n ∧ g.isFullyConnected = false :=
+  ⟨⟨3, [(0, 1)]⟩, by simp [G.WF], by decide, by decide⟩
+
+/-! ## neighbourhoods and degrees -/
+
+/-- `get_neighbors_of v` is the duplicate-free list of exactly the vertices joined to `v`;
+`get_qudit_degrees` lists their numbers, and that number is the number of incident edges. -/
+theorem C20_neighbors_degrees (g : G) (hwf : g.WF) (hnd : g.edges.Nodup) (v : Nat) (hv : v < g.n) :
+    (∀ u, u ∈ g.adj v ↔ g.hasEdge v u = true) ∧ (g.adj v).Nodup ∧
+    g.degrees.length = g.n ∧ g.degrees.getD v 0 = (g.adj v).length ∧
+    (g.adj v).length = (g.edges.filter (fun e => e.1 == v || e.2 == v)).length :=
+  ⟨g.mem_adj_wf hwf v, g.nodup_adj v, g.degrees_length, g.degrees_get v hv,
+   g.degree_eq_incident hwf hnd v⟩
+
+example : ∃ g : G, g.WF ∧ g.edges.Nodup ∧ 1 < g.n :=
+  ⟨⟨3, [(0, 1), (1, 2)]⟩, by simp [G.WF], by decide, by decide⟩
+
+/-! ## 2. get_subgraph -/
+
+/-- For a valid non-empty location and a renumbering that is a bijection `loc → [0, |loc|)`,
+`get_subgraph` succeeds and returns the induced subgraph with vertex `a` renamed `ren a`. -/
+theorem C20_subgraph (g : G) (hwf : g.WF) (loc : List Nat) (ren : List (Nat × Nat))
+    (hne : loc ≠ []) (hnd : loc.Nodup) (hlt : ∀ q ∈ loc, q < g.n)
+    (hkeys : (ren.map (·.1)).Perm loc)
+    (hvals : (ren.map (·.2)).Perm (List.range loc.length)) :
+    ∃ h, g.subgraph loc (some ren) = some h ∧ h.n = loc.length ∧ h.WF ∧
+      (∀ a b, a ∈ loc → b ∈ loc → h.hasEdge (lookup ren a) (lookup ren b) = g.hasEdge a b) ∧
+      (∀ x y, h.hasEdge x y = true →
+         ∃ a ∈ loc, ∃ b ∈ loc, x = lookup ren a ∧ y = lookup ren b ∧ g.hasEdge a b = true) :=
+  subgraph_spec g hwf loc ren hne hnd hlt hkeys hvals
+
+example : ∃ (g : G) (loc : List Nat) (ren : List (Nat × Nat)), g.WF ∧ loc ≠ [] ∧ loc.Nodup ∧
+    (∀ q ∈ loc, q < g.n) ∧ (ren.map (·.1)).Perm loc ∧ (ren.map (·.2)).Perm (List.range loc.length) :=
+  ⟨⟨4, [(0, 1), (1, 2), (2, 3)]⟩, [3, 1, 2], [(3, 0), (1, 1), (2, 2)], by simp [G.WF], by decide,
+   by decide, by decide, by decide, by decide⟩
+
+/-- The default renumbering is the position in `loc` (also for non-monotone `loc`): vertex
+`loc[i]` becomes `i`. -/
+theorem C20_subgraph_default (g : G) (hwf : g.WF) (loc : List Nat)
+    (hne : loc ≠ []) (hnd : loc.Nodup) (hlt : ∀ q ∈ loc, q < g.n) :
+    ∃ h, g.subgraph loc none = some h ∧ h.n = loc.length ∧ h.WF ∧
+      ∀ i j, i < loc.length → j < loc.length →
+        h.hasEdge i j = g.hasEdge (loc.getD i 0) (loc.getD j 0) :=
+  subgraph_default_spec g hwf loc hne hnd hlt
+
+example : ∃ (g : G) (loc : List Nat), g.WF ∧ loc ≠ [] ∧ loc.Nodup ∧ (∀ q ∈ loc, q < g.n) :=
+  ⟨⟨4, [(0, 1), (1, 2), (2, 3)]⟩, [3, 1, 2], by simp [G.WF], by decide, by decide, by decide⟩
+
+/-- `get_subgraph` raises exactly when the location is invalid (TypeError) or empty (the constructor
+rejects `CouplingGraph([], 0)`), or the renumbering is not a bijection `loc → [0,|loc|)`: wrong size,
+wrong key set, or values that are not a permutation of `0..|loc|-1` (the check is
+`sorted(values) != list(range(len(location)))` since the fix 494efa1).  In particular no renumbering
+that merges vertices is accepted. -/
+theorem C20_subgraph_errors (g : G) (hwf : g.WF) (loc : List Nat) (ren : List (Nat × Nat)) :
+    (g.subgraph loc (some ren) = none ↔
+      (¬ (loc.Nodup ∧ ∀ q ∈ loc, q < g.n))
+      ∨ loc = []
+      ∨ ren.length ≠ loc.length
+      ∨ ¬ (∀ q, q ∈ ren.map (·.1) ↔ q ∈ loc)
+      ∨ ¬ (ren.map (·.2)).Perm (List.range loc.length)) ∧
+    ((g.subgraph loc (some ren)).isSome = true ↔
+      loc ≠ [] ∧ loc.Nodup ∧ (∀ q ∈ loc, q < g.n) ∧ (ren.map (·.1)).Perm loc ∧
+        (ren.map (·.2)).Perm (List.range loc.length)) :=
+  ⟨subgraph_none_iff g hwf loc ren, subgraph_isSome_iff g hwf loc ren⟩
+
+/-- With the default renumbering the only error cases are an invalid or empty location. -/
+theorem C20_subgraph_default_errors (g : G) (hwf : g.WF) (loc : List Nat) :
+    g.subgraph loc none = none ↔ ¬ (loc.Nodup ∧ ∀ q ∈ loc, q < g.n) ∨ loc = [] :=
+  subgraph_default_none_iff g hwf loc
+
+example : ∃ g : G, g.WF := ⟨⟨3, [(0, 1)]⟩, by simp [G.WF]⟩
+
+/-- The reproducer of the former finding (non-injective renumbering accepted, fixed by 494efa1) is
+rejected. -/
+theorem C20_subgraph_rejects_non_injective :
+    (G.mk 3 [(0, 1)]).subgraph [0, 1, 2] (some [(0, 0), (1, 2), (2, 2)]) = none :=
+  subgraph_rejects_non_injective
+
+/-! ## 3. topology constructors (incl. degenerate sizes) -/
+
+/-- `all_to_all(n)`: `max n 1` vertices (n = 0 and n = 1 both give the one-vertex graph), an edge
+between every two distinct vertices `< n`. -/
+theorem C20_topology_all_to_all (n : Nat) :
+    ∃ g, mk? (allToAllRaw n) none = some g ∧ g.n = max n 1 ∧ g.WF ∧
+      ∀ a b, g.hasEdge a b = true ↔ a ≠ b ∧ a < n ∧ b < n := allToAll_spec n
+
+/-- `linear(n)`: `max n 1` vertices, edges exactly `{a, a+1}` with `a + 1 < n`. -/
+theorem C20_topology_linear (n : Nat) :
+    ∃ g, mk? (linearRaw n) none = some g ∧ g.n = max n 1 ∧ g.WF ∧
+      ∀ a b, g.hasEdge a b = true ↔ (b = a + 1 ∧ b < n) ∨ (a = b + 1 ∧ a < n) := linear_spec n
+
+/-- `star(n)`: `max n 1` vertices, edges exactly `{0, b}` with `1 ≤ b < n`. -/
+theorem C20_topology_star (n : Nat) :
+    ∃ g, mk? (starRaw n) none = some g ∧ g.n = max n 1 ∧ g.WF ∧
+      ∀ a b, g.hasEdge a b = true ↔ (a = 0 ∧ 1 ≤ b ∧ b < n) ∨ (b = 0 ∧ 1 ≤ a ∧ a < n) := star_spec n
+
+/-- `ring(n)`, `n ≥ 2`: `n` vertices, edges exactly `{a, a+1 mod n}` (for `n = 2` the single edge
+{0,1}). -/
+theorem C20_topology_ring (n : Nat) (hn : 2 ≤ n) :
+    ∃ g, (ringRaw n).bind (mk? · none) = some g ∧ g.n = n ∧ g.WF ∧
+      ∀ a b, g.hasEdge a b = true ↔
+        a < n ∧ b < n ∧ a ≠ b ∧ (b = (a + 1) % n ∨ a = (b + 1) % n) := ring_spec n hn
+/-- `ring(1)` raises (self loop (0,0)). -/
+theorem C20_topology_ring_one : (ringRaw 1).bind (mk? · none) = none := ring_one
+example : ∃ n, 2 ≤ n := ⟨2, by decide⟩
+
+/-- `grid(rows, cols)`: `max (rows*cols) 1` vertices; vertex `a` sits in row `a / cols`, column
+`a % cols`; edges exactly between horizontal and vertical neighbours. -/
+theorem C20_topology_grid (rows cols : Nat) :
+    ∃ g, mk? (gridRaw rows cols) none = some g ∧ g.n = max (rows * cols) 1 ∧ g.WF ∧
+      ∀ a b, g.hasEdge a b = true ↔
+        a < rows * cols ∧ b < rows * cols ∧
+        ((a / cols = b / cols ∧ (a % cols + 1 = b % cols ∨ b % cols + 1 = a % cols)) ∨
+         (a % cols = b % cols ∧ (a / cols + 1 = b / cols ∨ b / cols + 1 = a / cols))) :=
+  grid_spec rows cols
+
+/-! ## 4. PermutationMatrix.from_qudit_location, gen_swap_unitary -/
+
+/-- The swap loop composes to the digit permutation `permSpec` (for every column, every radix). -/
+theorem C20_perm_from_location (n r : Nat) (loc : List Nat) (hnd : loc.Nodup)
+    (hlt : ∀ q ∈ loc, q < n) (col : Nat) :
+    permFromLocation n r loc col = permSpec n r loc col :=
+  permFromLocation_eq_spec n r loc hnd hlt col
+
+/-- … and that permutation is a bijection of `[0, r^n)` which moves qudit `loc[i]` to position `i`:
+digit `i` of the image of `col` is digit `loc[i]` of `col`. -/
+theorem C20_perm_spec (n r : Nat) (loc : List Nat) (hnd : loc.Nodup) (hlt : ∀ q ∈ loc, q < n) :
+    (∀ col, col < r ^ n → permFromLocation n r loc col < r ^ n) ∧
+    (∀ c1 c2, c1 < r ^ n → c2 < r ^ n →
+        permFromLocation n r loc c1 = permFromLocation n r loc c2 → c1 = c2) ∧
+    (∀ col i, col < r ^ n → i < loc.length →
+        (digits r n (permFromLocation n r loc col)).getD i 0
+          = (digits r n col).getD (loc.getD i 0) 0) := by
+  refine ⟨fun col hcol => ?_, fun c1 c2 h1 h2 h => ?_, fun col i hcol hi => ?_⟩
+  · rw [permFromLocation_eq_spec n r loc hnd hlt]; exact permSpec_lt n r loc hnd hlt col hcol
+  · rw [permFromLocation_eq_spec n r loc hnd hlt, permFromLocation_eq_spec n r loc hnd hlt] at h
+    exact permSpec_injective n r loc hnd hlt c1 c2 h1 h2 h
+  · rw [permFromLocation_eq_spec n r loc hnd hlt]; exact permSpec_digit n r loc hnd hlt col hcol i hi
+
+/-- The bookkeeping list `current_perm` ends as the identity (the loop is a selection sort). -/
+theorem C20_perm_loop_sorts (n : Nat) (loc : List Nat) (hnd : loc.Nodup) (hlt : ∀ q ∈ loc, q < n) :
+    (swapLoop n loc).2 = List.range n := swapLoop_final n loc hnd hlt
+
+example : ∃ (n : Nat) (loc : List Nat), loc.Nodup ∧ (∀ q ∈ loc, q < n) ∧ loc ≠ [] :=
+  ⟨3, [1, 2, 0], by decide, by decide, by decide⟩
+
+/-- `gen_swap_unitary(r)`: the 1 of column `col = a·r + b` is in row `b·r + a`, the swap of the two
+base-`r` digits. -/
+theorem C20_gen_swap (r col : Nat) (hcol : col < r * r) :
+    genSwapRow r col = undigits r (swapDigits (digits r 2 col) 0 1) := genSwapRow_eq r col hcol
+example : ∃ r col : Nat, col < r * r := ⟨3, 5, by decide⟩
+
+/-! ## 5. all_pairs_shortest_path (in-place Floyd–Warshall) -/
+
+/-- For every `n × n` weight matrix over `ℕ ∪ {∞}` the result entry `(i,j)` is the minimum weight of
+a NON-EMPTY walk `i → j` (the diagonal starts at ∞), `∞` iff there is none. -/
+theorem C20_floyd_warshall (n : Nat) (m : Mat) (hm : m.Square n) (i j : Nat) (hi : i < n) (hj : j < n) :
+    (∀ w, (floydWarshall n m).get i j = some w ↔
+        (∃ mids, walkWeight m i mids j = some w) ∧ ∀ mids, wle (some w) (walkWeight m i mids j)) ∧
+    ((floydWarshall n m).get i j = none ↔ ∀ mids, walkWeight m i mids j = none) :=
+  floydWarshall_spec n m hm i j hi hj
+
+/-- The matrix the constructor builds: `n × n`; an override wins over a remote weight, which wins
+over the default weight; non-edges are ∞. -/
+theorem C20_weight_matrix (g : G) (hwf : g.WF) (dw rw : Nat) (remote : List (Nat × Nat))
+    (over : List ((Nat × Nat) × Nat))
+    (hrem : ∀ e ∈ remote, g.hasEdge e.1 e.2 = true)
+    (hover : ∀ ew ∈ over, g.hasEdge ew.1.1 ew.1.2 = true) (i j : Nat) :
+    (g.weightMat dw rw remote over).Square g.n ∧
+    (g.weightMat dw rw remote over).get i j =
+      match over.reverse.find? (fun ew => pairMatches i j ew.1) with
+      | some ew => some ew.2
+      | none =>
+        if remote.any (pairMatches i j) then some rw
+        else if g.hasEdge i j then some dw else none :=
+  ⟨weightMat_square g dw rw remote over, weightMat_get g hwf dw rw remote over hrem hover i j⟩
+
+/-- Default weights: the entry is `dw ·` (minimum number of edges of a non-empty walk), and it is ∞
+exactly for unreachable pairs. -/
+theorem C20_floyd_warshall_default (g : G) (hwf : g.WF) (dw rw : Nat) (i j : Nat)
+    (hi : i < g.n) (hj : j < g.n) :
+    ((∀ w, (floydWarshall g.n (g.weightMat dw rw [] [])).get i j = some w ↔
+      (∃ mids, IsWalk g i mids j ∧ w = dw * (mids.length + 1)) ∧
+        ∀ mids, IsWalk g i mids j → w ≤ dw * (mids.length + 1)) ∧
+    ((floydWarshall g.n (g.weightMat dw rw [] [])).get i j = none ↔ ∀ mids, ¬ IsWalk g i mids j)) ∧
+    (i ≠ j → ((floydWarshall g.n (g.weightMat dw rw [] [])).get i j = none ↔ ¬ Reach g i j)) :=
+  ⟨floydWarshall_default g hwf dw rw i j hi hj,
+   fun hij => floydWarshall_none_iff_not_reach g hwf dw rw i j hi hj hij⟩
+
+example : ∃ (n : Nat) (m : Mat), m.Square n ∧ 1 < n :=
+  ⟨2, [[none, some 1], [some 1, none]], by simp [Mat.Square], by decide⟩
+example : ∃ (g : G), g.WF ∧ 1 < g.n ∧ (∀ e ∈ [(1, 0)], g.hasEdge e.1 e.2 = true) :=
+  ⟨⟨3, [(0, 1), (1, 2)]⟩, by simp [G.WF], by decide, by decide⟩
+
+/-! ## 6. get_shortest_path_tree -/
+
+/-- If the call returns, entry `v` is a path `source … v` along edges with the minimum possible
+number of edges. -/
+theorem C20_dijkstra_tree (g : G) (hwf : g.WF) (s : Nat) (hs : s < g.n) (ps : List (List Nat))
+    (h : g.shortestPathTree s = some ps) :
+    ps.length = g.n ∧ ∀ v, v < g.n →
+      (ps.getD v []).head? = some s ∧ (ps.getD v []).getLast? = some v ∧ IsPath g (ps.getD v []) ∧
+      WalkLen g s v ((ps.getD v []).length - 1) ∧
+      ∀ k, WalkLen g s v k → (ps.getD v []).length - 1 ≤ k :=
+  shortestPathTree_some g hwf s hs ps h
+
+/-- It raises (`RuntimeError`) exactly when some vertex is unreachable from the source. -/
+theorem C20_dijkstra_tree_raises (g : G) (hwf : g.WF) (s : Nat) (hs : s < g.n) :
+    g.shortestPathTree s = none ↔ ∃ v, v < g.n ∧ ¬ Reach g s v :=
+  shortestPathTree_none_iff g hwf s hs
+
+example : ∃ (g : G) (s : Nat) (ps : List (List Nat)), g.WF ∧ s < g.n ∧ g.shortestPathTree s = some ps :=
+  ⟨⟨4, [(0, 1), (1, 2), (2, 3), (0, 2)]⟩, 1, [[1, 0], [1], [1, 2], [1, 2, 3]], by simp [G.WF],
+   by decide, by decide⟩
+
+/-! ## 7. get_subgraphs_of_size, is_embedded_in -/
+
+/-- The result (each location as its sorted vertex list, as a duplicate-free collection) consists of
+exactly the `k`-subsets of the vertices that induce a connected subgraph; the call raises iff
+`k = 0` or `k > n`.  (Since the fix b592992 the real code builds each location from the sorted vertex
+set, as the model does, so it also lists every vertex set once; the harness checks that.) -/
+theorem C20_subgraphs_of_size (g : G) (k : Nat) :
+    (g.subgraphsOfSize k = none ↔ k = 0 ∨ g.n < k) ∧
+    ∀ res, g.subgraphsOfSize k = some res →
+      res.Nodup ∧
+      ∀ S, S ∈ res ↔ S.length = k ∧ S.Pairwise (· < ·) ∧ (∀ v ∈ S, v < g.n) ∧ ConnectedOn g S :=
+  ⟨subgraphsOfSize_none_iff g k, fun res h =>
+    ⟨subgraphsOfSize_nodup g k res h, mem_subgraphsOfSize_iff g k res h⟩⟩
+
+example : ∃ (g : G) (k : Nat) (res : List (List Nat)), g.subgraphsOfSize k = some res ∧ res ≠ [] :=
+  ⟨⟨4, [(0, 1), (1, 2)]⟩, 2, [[0, 1], [1, 2]], by decide, by decide⟩
+
+/-- `is_embedded_in` is true iff there is an injective map of the vertices that maps edges to
+edges; in particular the degree pre-check of the code never changes the answer. -/
+theorem C20_embedded_in (g h : G) (hg : g.WF) :
+    (g.isEmbeddedIn h = true ↔
+      ∃ f : Nat → Nat, (∀ a, a < g.n → f a < h.n) ∧
+        (∀ a b, a < g.n → b < g.n → f a = f b → a = b) ∧
+        (∀ a b, g.hasEdge a b = true → h.hasEdge (f a) (f b) = true)) :=
+  isEmbeddedIn_iff_isEmbedding g h hg
+
+example : ∃ g h : G, g.WF ∧ g.isEmbeddedIn h = true ∧ h.isEmbeddedIn g = false :=
+  ⟨⟨3, [(0, 1), (1, 2)]⟩, ⟨3, [(0, 1), (1, 2), (0, 2)]⟩, by simp [G.WF], by decide, by decide⟩
+
+/-! ## is_fully_connected_without, QPUs (get_qpu_to_qudit_map) -/
+
+/-- `is_fully_connected_without(q)` (n ≥ 2, q < n) is true iff all vertices other than `q` are
+mutually reachable by walks avoiding `q`; it raises (IndexError) exactly when the start vertex
+(0, or 1 for q = 0) does not exist. -/
+theorem C20_connected_without (g : G) (hwf : g.WF) (hn : 2 ≤ g.n) (q : Nat) (hq : q < g.n) :
+    (g.isFullyConnectedWithout q = some true ↔
+      ∀ u v, u < g.n → v < g.n → u ≠ q → v ≠ q → ReachAvoid g q u v) ∧
+    (g.isFullyConnectedWithout q).isSome = true :=
+  ⟨isFullyConnectedWithout_iff_all_pairs g hwf hn q hq, isFullyConnectedWithout_isSome g hn q⟩
+
+example : ∃ (g : G) (q : Nat), g.WF ∧ 2 ≤ g.n ∧ q < g.n ∧ g.isFullyConnectedWithout q = some false :=
+  ⟨⟨3, [(0, 1), (1, 2)]⟩, 1, by simp [G.WF], by decide, by decide, by decide⟩
+
+/-- `get_qpu_to_qudit_map()`: a partition of the qudits into the classes of "reachable over non-remote
+edges", each class listed once, duplicate free, ordered by their smallest member, which comes first. -/
+theorem C20_qpu_map (g : G) (hwf : g.WF) (remote : List (Nat × Nat)) :
+    let qs := g.qpuToQudit remote
+    (∀ v, v < g.n → ∃ c ∈ qs, v ∈ c) ∧
+    (∀ c ∈ qs, c ≠ [] ∧ c.Nodup ∧ ∀ v ∈ c, v < g.n) ∧
+    (∀ c ∈ qs, ∀ u ∈ c, ∀ v, v ∈ c ↔ ReachLocal g remote u v) ∧
+    (qs.Pairwise (fun c d => ∀ u ∈ c, ∀ v ∈ d, ¬ ReachLocal g remote u v)) ∧
+    (qs.Pairwise (fun c d => c.headD 0 < d.headD 0)) ∧
+    (∀ c ∈ qs, ∀ v ∈ c, c.headD 0 ≤ v) :=
+  qpuToQudit_spec g hwf remote
+
+example : ∃ (g : G) (remote : List (Nat × Nat)), g.WF ∧ g.qpuToQudit remote = [[0, 2], [1]] :=
+  ⟨⟨3, [(0, 2), (1, 2)]⟩, [(1, 2)], by simp [G.WF], by decide⟩
+
+/-- `get_qudit_to_qpu_map()` (since the fix 2c665e0) never raises and is the documented map for ALL
+graphs: entry `q` is the index of the unique QPU that holds `q`; two qudits get the same index iff
+they are connected over non-remote edges. -/
+theorem C20_qudit_to_qpu_map (g : G) (hwf : g.WF) (remote : List (Nat × Nat)) :
+    g.quditToQpuImpl? remote = some (g.quditToQpuSpec remote) ∧
+    (∀ q, q < g.n →
+      (g.quditToQpuImpl remote).length = g.n ∧
+      (g.quditToQpuImpl remote).getD q 0 < (g.qpuToQudit remote).length ∧
+      q ∈ (g.qpuToQudit remote).getD ((g.quditToQpuImpl remote).getD q 0) [] ∧
+      ∀ i, q ∈ (g.qpuToQudit remote).getD i [] → i = (g.quditToQpuImpl remote).getD q 0) ∧
+    (∀ a b, a < g.n → b < g.n → (g.qpuOf remote a = g.qpuOf remote b ↔ ReachLocal g remote a b)) :=
+  ⟨quditToQpuImpl?_eq_spec g hwf remote, fun q hq => quditToQpuImpl_get g hwf remote q hq,
+   fun a b ha hb => qpuOf_eq_iff g hwf remote a b ha hb⟩
+
+/-- `get_qpu_connectivity()`: one duplicate-free adjacency list per QPU; QPU `b` is listed for QPU
+`a` iff some remote edge joins a qudit of `a` with a qudit of `b` (remote edges are edges of the
+graph, as the constructor enforces). -/
+theorem C20_qpu_connectivity (g : G) (hwf : g.WF) (remote : List (Nat × Nat))
+    (hrem : ∀ e ∈ remote, g.hasEdge e.1 e.2 = true) :
+    (g.qpuConnImpl remote).length = (g.qpuToQudit remote).length ∧
+    (∀ a, ((g.qpuConnImpl remote).getD a []).Nodup) ∧
+    ∀ a b, b ∈ (g.qpuConnImpl remote).getD a [] ↔
+      ∃ e ∈ remote, (g.qpuOf remote e.1 = a ∧ g.qpuOf remote e.2 = b) ∨
+                    (g.qpuOf remote e.1 = b ∧ g.qpuOf remote e.2 = a) :=
+  qpuConnImpl_spec g hwf remote hrem
+
+example : ∃ (g : G) (remote : List (Nat × Nat)), g.WF ∧ remote ≠ [] ∧
+    (∀ e ∈ remote, g.hasEdge e.1 e.2 = true) ∧ g.quditToQpuImpl remote = [0, 1, 2, 0] :=
+  ⟨⟨4, [(0, 3), (1, 3), (2, 3)]⟩, [(1, 3), (2, 3)], by simp [G.WF], by decide, by decide, by decide⟩
+
+/-- The reproducers of the two former findings (fixed by 2c665e0) give the documented values. -/
+theorem C20_qpu_fixed_examples :
+    (G.mk 3 [(0, 2), (1, 2)]).quditToQpuImpl [(1, 2)] = [0, 1, 0] ∧
+    (G.mk 4 [(0, 3), (1, 3), (2, 3)]).qpuConnImpl [(1, 3), (2, 3)] = [[1, 2], [0], [0]] :=
+  quditToQpu_fixed_examples
+
+/-! ## Kronecker clause: index arithmetic of otimes / products / builder applies -/
+
+/-- In the monomial-matrix model: `A ⊗ B` sends column `c₁·|B| + c₂` to row `r₁·|B| + r₂` (phases
+add), and `A · B` sends `c` to `A(B(c))` (phases add) — the explicit Kronecker / matrix product. -/
+theorem C20_kron_ops (a b : BqVerif.Kron.Mono) :
+    (BqVerif.Kron.otimes a b).length = a.length * b.length ∧
+    (∀ c1 c2, c1 < a.length → c2 < b.length →
+      (BqVerif.Kron.otimes a b).at (c1 * b.length + c2) =
+        ((a.at c1).1 * b.length + (b.at c2).1, ((a.at c1).2 + (b.at c2).2) % 4)) ∧
+    (∀ c, c < b.length →
+      (BqVerif.Kron.mul a b).at c = ((a.at (b.at c).1).1, ((b.at c).2 + (a.at (b.at c).1).2) % 4)) :=
+  ⟨BqVerif.Kron.otimes_length a b, fun c1 c2 h1 h2 => BqVerif.Kron.otimes_at a b c1 c2 h1 h2,
+   fun c hc => BqVerif.Kron.mul_at a b c hc⟩
+
+/-- Embedding `gen_swap_unitary(r)` on the qudits `(a, b)` of `n` radix-`r` qudits is the digit swap. -/
+theorem C20_kron_embed_swap (n r a b : Nat) (ha : a < n) (hb : b < n) (col : Nat) (hcol : col < r ^ n) :
+    (BqVerif.Kron.embed (BqVerif.Kron.swapMono r) [a, b] (List.replicate n r)).at col =
+      (undigits r (swapDigits (digits r n col) a b), 0) :=
+  BqVerif.Kron.embed_swap_at n r a b ha hb col hcol
+
+/-- The builder model run on the swaps recorded by the loop of `from_qudit_location`
+(`apply_left(swap_utry, (index, pos))` for each of them, all argument checks pass) returns exactly the
+permutation matrix `permFromLocation` = `permSpec`: this discharges, inside Lean, the abstraction
+"apply_left of a swap = digit swap, last applied acts first" made by the `from_qudit_location` model. -/
+theorem C20_kron_swap_builder (n r : Nat) (loc : List Nat) (hnd : loc.Nodup) (hlt : ∀ q ∈ loc, q < n) :
+    BqVerif.Kron.build (List.replicate n r) (BqVerif.Kron.swapOps r (swapLoop n loc).1) =
+      some ((List.range (r ^ n)).map (fun c => (permSpec n r loc c, 0))) :=
+  BqVerif.Kron.build_swapLoop_spec n r loc hnd hlt
+
+example : ∃ (n r a b col : Nat), a < n ∧ b < n ∧ col < r ^ n := ⟨3, 2, 0, 2, 5, by decide⟩
+
+/-- General `embed` (what `apply_left/apply_right` multiply with), mixed radixes, any gate: for a valid
+location, column `col` is sent to the row whose digits at `loc` are the digits of the gate's row for the
+gate column read off `col` at `loc`, all other digits unchanged; the phase is the gate's. -/
+theorem C20_kron_embed (m : BqVerif.Kron.Mono) (loc radixes : List Nat) (hloc : loc.Nodup)
+    (hlt : ∀ q ∈ loc, q < radixes.length)
+    (hm : m.length = BqVerif.Kron.dim (loc.map (radixes.getD · 1)))
+    (hrow : ∀ e ∈ m, e.1 < m.length)
+    (col : Nat) (hcol : col < BqVerif.Kron.dim radixes) :
+    let subR := loc.map (radixes.getD · 1)
+    let ds := BqVerif.Kron.digits radixes col
+    let sc := BqVerif.Kron.undigits subR (loc.map (ds.getD · 0))
+    let e := m.at sc
+    let out := (BqVerif.Kron.embed m loc radixes).at col
+    sc < m.length ∧ out.2 = e.2 ∧ out.1 < BqVerif.Kron.dim radixes ∧
+    (∀ k, k < loc.length →
+      (BqVerif.Kron.digits radixes out.1).getD (loc.getD k 0) 0 = (BqVerif.Kron.digits subR e.1).getD k 0) ∧
+    (∀ q, q < radixes.length → q ∉ loc → (BqVerif.Kron.digits radixes out.1).getD q 0 = ds.getD q 0) ∧
+    BqVerif.Kron.undigits subR (loc.map ((BqVerif.Kron.digits radixes out.1).getD · 0)) = e.1 :=
+  BqVerif.Kron.embed_at m loc radixes hloc hlt hm hrow col hcol
+
+example : ∃ (m : BqVerif.Kron.Mono) (loc radixes : List Nat) (col : Nat), loc.Nodup ∧
+    (∀ q ∈ loc, q < radixes.length) ∧ m.length = BqVerif.Kron.dim (loc.map (radixes.getD · 1)) ∧
+    (∀ e ∈ m, e.1 < m.length) ∧ col < BqVerif.Kron.dim radixes :=
+  ⟨[(1, 0), (0, 1), (2, 3), (3, 0), (5, 2), (4, 0)], [2, 0], [2, 2, 3], 7,
+   by decide, by decide, by decide, by decide, by decide⟩
+
+/-- Embedding is multiplicative and commutes with the dagger; the dagger is the two-sided inverse;
+`ipower` is a homomorphism ℤ → matrices (so `ipower m (-k)` inverts `ipower m k`); a builder whose
+applies pass the argument checks always returns a monomial unitary of the full dimension. -/
+theorem C20_kron_algebra (m : BqVerif.Kron.Mono) (hm : m.Unitary) :
+    (BqVerif.Kron.mul (BqVerif.Kron.dagger m) m = BqVerif.Kron.identity m.length ∧
+     BqVerif.Kron.mul m (BqVerif.Kron.dagger m) = BqVerif.Kron.identity m.length) ∧
+    (∀ a b : Int, BqVerif.Kron.ipower m (a + b) =
+        BqVerif.Kron.mul (BqVerif.Kron.ipower m a) (BqVerif.Kron.ipower m b)) ∧
+    (∀ k : Int, BqVerif.Kron.mul (BqVerif.Kron.ipower m (-k)) (BqVerif.Kron.ipower m k) =
+        BqVerif.Kron.identity m.length) ∧
+    (∀ (a : BqVerif.Kron.Mono) (loc radixes : List Nat), loc.Nodup → (∀ q ∈ loc, q < radixes.length) →
+        m.length = BqVerif.Kron.dim (loc.map (radixes.getD · 1)) →
+        BqVerif.Kron.embed (BqVerif.Kron.mul a m) loc radixes =
+          BqVerif.Kron.mul (BqVerif.Kron.embed a loc radixes) (BqVerif.Kron.embed m loc radixes) ∧
+        BqVerif.Kron.embed (BqVerif.Kron.dagger m) loc radixes =
+          BqVerif.Kron.dagger (BqVerif.Kron.embed m loc radixes) ∧
+        (BqVerif.Kron.embed m loc radixes).Unitary) :=
+  ⟨⟨BqVerif.Kron.mul_dagger_left m hm, BqVerif.Kron.mul_dagger_right m hm⟩,
+   fun a b => BqVerif.Kron.ipower_add m hm a b,
+   fun k => BqVerif.Kron.ipower_neg_inverse m hm k,
+   fun a loc radixes hloc hlt hml =>
+    ⟨BqVerif.Kron.embed_mul a m loc radixes hloc hlt hml (fun e he => (hm.1 e he).1),
+     BqVerif.Kron.embed_dagger m loc radixes hm hloc hlt hml,
+     BqVerif.Kron.embed_unitary m loc radixes hm hloc hlt hml⟩⟩
+
+theorem C20_kron_build_unitary (radixes : List Nat) (ops : List BqVerif.Kron.Op)
+    (hops : ∀ o ∈ ops, o.ok radixes = true ∧ o.m.Unitary) :
+    ∃ u, BqVerif.Kron.build radixes ops = some u ∧ u.Unitary ∧ u.length = BqVerif.Kron.dim radixes :=
+  BqVerif.Kron.build_unitary radixes ops hops
+
+example : ∃ m : BqVerif.Kron.Mono, m.Unitary ∧ m.length = 3 :=
+  ⟨[(1, 0), (2, 3), (0, 1)], by simp [BqVerif.Kron.Mono.Unitary], rfl⟩
+
+/-! ## maximal_matching, get_rooted_minimum_span (relational: checkers + any-order algorithms) -/
+
+/-- Meaning of the checker every real `maximal_matching` result is sent through: the result consists
+of stored edges of `g`, none ignored (in either orientation), pairwise vertex disjoint, and every
+other admissible edge touches it (maximal).  And the greedy loop of the code returns an accepted
+result for EVERY enumeration order of the candidate edges (set order, `shuffle`) and every order of the
+returned list. -/
+theorem C20_maximal_matching (g : G) (ignored : List (Nat × Nat)) :
+    (∀ res, validMatching g ignored res = true ↔
+      (∀ e ∈ res, e ∈ g.edges ∧ ignoredEdge ignored e = false) ∧
+      (res.Nodup ∧ ∀ e ∈ res, e.1 ≠ e.2) ∧
+      (∀ e ∈ res, ∀ f ∈ res, e ≠ f → e.1 ≠ f.1 ∧ e.1 ≠ f.2 ∧ e.2 ≠ f.1 ∧ e.2 ≠ f.2) ∧
+      (∀ e ∈ g.edges, ignoredEdge ignored e = false → e.1 ≠ e.2 →
+          ∃ f ∈ res, f.1 = e.1 ∨ f.2 = e.1 ∨ f.1 = e.2 ∨ f.2 = e.2)) ∧
+    (∀ el res, el.Perm (candidateEdges g ignored) → res.Perm (greedyMatching el) →
+      validMatching g ignored res = true) :=
+  ⟨fun res => validMatching_iff g ignored res,
+   fun el res h1 h2 => greedyMatching_valid_perm g ignored el res h1 h2⟩
+
+example : validMatching ⟨4, [(0, 1), (1, 2), (2, 3)]⟩ [(2, 1)] [(0, 1), (2, 3)] = true ∧
+    validMatching ⟨4, [(0, 1), (1, 2), (2, 3)]⟩ [] [(0, 1)] = false := by decide
+
+/-- Meaning of the checker every real `get_rooted_minimum_span` result (connected graphs) is sent
+through: `n-1` pairs (parent, child), each an edge, parent reached before, every vertex reached exactly
+once — so the pairs alone connect the root to every vertex — and the tree is a BFS tree: the depth of
+each vertex in the tree is its hop distance from the root in `g`.  (The DFS pre-order of the listing is
+not checked.)  The two loops of the code, run with ARBITRARY iteration orders of the neighbour sets, return
+an accepted result on every connected graph. -/
+theorem C20_rooted_span (g : G) (root : Nat) :
+    (∀ res, validMinSpan g root res = true →
+      (∀ v, v < g.n → v = root ∨ ∃ pc ∈ res, pc.2 = v) ∧
+      (∀ v, v < g.n → Reach ⟨g.n, res.map norm⟩ root v) ∧
+      (res.map (·.2)).Nodup ∧ root ∉ res.map (·.2) ∧ res.length + 1 = g.n ∧
+      (∀ a b, (G.mk g.n (res.map norm)).hasEdge a b = true → g.hasEdge a b = true) ∧
+      ∀ v, v < g.n →
+        Walk ⟨g.n, res.map norm⟩ root (lookup (spanDepths root res) v) v ∧
+        ∀ k, Walk g root k v → lookup (spanDepths root res) v ≤ k) ∧
+    (g.WF → root < g.n → (∀ v, v < g.n → Reach g root v) →
+      ∀ ord1 ord2 : Nat → List Nat → List Nat, (∀ q l, (ord1 q l).Perm l) → (∀ q l, (ord2 q l).Perm l) →
+        ∃ res, g.rootedSpan ord1 ord2 root = some res ∧ validMinSpan g root res = true) := by
+  refine ⟨fun res h => ?_, fun hwf hroot hconn ord1 ord2 h1 h2 =>
+    rootedSpan_minValid g hwf ord1 ord2 h1 h2 root hroot hconn⟩
+  have hv := ((validMinSpan_iff g root res).1 h).1
+  have hs := validSpan_spanning g root res hv
+  refine ⟨hs.1, hs.2.1, hs.2.2.2.1, hs.2.2.2.2, ((validSpan_iff g root res).1 hv).1,
+    fun a b hab => validSpan_subgraph g root res hv a b hab, fun v hvn => ?_⟩
+  have hd := validMinSpan_dist g root res h v hvn
+  exact ⟨hd.1, hd.2.2⟩
+
+example : validMinSpan ⟨4, [(0, 1), (1, 2), (2, 3), (0, 3)]⟩ 1 [(1, 2), (1, 0), (0, 3)] = true ∧
+    validMinSpan ⟨4, [(0, 1), (1, 2), (2, 3), (0, 3)]⟩ 1 [(1, 2), (2, 3), (3, 0)] = false := by decide
 
 end BqVerif.C20
